@@ -50,10 +50,19 @@ def registry_part(ctx, nmax, tag):
         c = [r for r in h.results if r['kind'] == 'cex']; cexs += c
         ctx.obligations['From<Registry>: entry i carries id i and definition i, n=%d' % n] = 'sat' if c else 'unsat'
     # bounded black-box histories on the real Registry (independent of the representation the step assumes)
-    for n in ((1, 2, 3, 24) if ctx.thorough() else (1, 2, 3, 20)):
-        h = attempt('registry-history-%d' % n, regstep.body_registry_history(n))
+    # the long history is longer than every size constant found in the code of the registry / interner (thresholds of size-dependent fast paths)
+    thr = size_threshold()
+    nlong = max(24 if ctx.thorough() else 20, thr + 4)
+    ctx.bounds['long black-box history'] = '%d pairwise distinct types (largest size constant in interner/registry/portable code: %d)' % (nlong, thr)
+    for n in (1, 2, 3, nlong):
+        h = attempt('registry-history-%d' % n, regstep.body_registry_history(n), timeout=600 if n == nlong else None)
         if h is None: continue
         cexs += collect(ctx, h, 'registry history', tag)
+    # nested registration: one root whose conversion registers the next type, ... - deeper than twice every size constant in the code
+    depth = max(40, 2 * thr + 4)
+    ctx.bounds['nested registration chain'] = 'depth %d' % depth
+    h = attempt('registry-chain-%d' % depth, regstep.body_registry_chain(depth), timeout=900, jobs=1)
+    if h is not None: cexs += collect(ctx, h, 'registry chain', tag)
     # negative controls: a wrong post-condition must be refuted; dropping a needed hypothesis must make the step fail (hypotheses are used, not vacuous)
     hn = attempt('negative-control-id', regstep.body_register_type(wrong='id'))
     if hn is not None:
@@ -95,7 +104,7 @@ def run(ctx):
     T = ctx.thorough()
     nmax = 6 if T else 4
     ctx.bounds = {'registration histories': 'any length below 2^32 registered types (inductive step from an arbitrary state)', 'From<Registry> / finish unrolled': nmax,
-                  'retain': 'exhaustive n<=2 entries, <=1 element per vector (all kinds, ids, filters); deeper bounds under C10'}
+                  'retain': 'exhaustive n<=2 entries, <=1 element per vector (all kinds, ids, filters); 3 fixed shapes with 2-3 type parameters per type (every presence combination); deeper bounds under C10'}
     ctx.outside = ['registries with 2^32 or more types', 'termination of registration on cyclic type graphs (argued, see DESIGN.md C02)', 'decoded registries (C07)']
     ctx.assumptions = ['into_portable bodies touch the registry only through register_type / register_types / map_into_portable (call-log obligation of C02)',
                        'rely condition R for nested conversions; proved reflexive, transitive and implied by the guarantee (induction on call depth)',
@@ -116,6 +125,9 @@ def run(ctx):
             for kp in ((True, False) if n == 2 else [None]):
                 h = run_harness(ctx, 'retain-n%d-k%s-%s' % (n, k, kp), c10.body_retain(n, 1, 1, first_kind=(k, kp) if k is not None else None), models=c10.MODELS_C10)
                 rc += [r for r in h.results if r['kind'] == 'cex']
+    for j, tmpl in enumerate(c10.PTEMPL):
+        h = run_harness(ctx, 'retain-params-%d' % j, c10.body_retain(len(tmpl), 1, 3, template=tmpl), models=c10.MODELS_C10)
+        rc += [r for r in h.results if r['kind'] == 'cex']
     ctx.obligations['retain on a well-formed registry gives a dense, closed registry (n<=2 exhaustive, %d paths)' % sum(sum(h.kinds.values()) for h in ctx.harnesses if h.name.startswith('retain-'))] = 'sat' if rc else 'unsat'
     seen = set()
     for c in rc:
